@@ -425,7 +425,7 @@ func ruleC11R5(c *Ctx) {
 	}
 	c.check(okN, "C11.R5", ncm, "NewChunkMaker passes its tag to the encoder", ncm.Pos(), "newEncoder(tag, …)", "the chunk maker's encoder gets a different tag than the pipeline's")
 	// the pipeline passes the same tag to serializer and chunk maker (C06.R3 checks the source)
-	starter := c.P.Fn(aPrepPipe).AnonFuncs[0]
+	starter := returnedClosure(c.P.Fn(aPrepPipe))
 	for _, f := range withAnons(starter) {
 		for _, s := range sitesWhere(f, func(s ssa.CallInstruction) bool {
 			return invokeOf(s, "base/bconfig.LogOutputConfig", "NewChunkMaker") || invokeOf(s, "base/bconfig.LogOutputConfig", "NewSerializer")
